@@ -431,7 +431,7 @@ example : (famCall ⟨[]⟩ storeA [1] [(0, .simple)] none (tseitinProg false)).
   decide +kernel
 
 /-- planted assignments: a list of lists is read, the clauses not satisfied by all of them are rejected -/
-example : (snap (famCall ⟨[]⟩ storeA [5] [] none (plantedProg 2 2 [[1, 2], [-1, -2], [1, -2], [-1, 2]])).1 9).map
+example : (snap (famCall ⟨[]⟩ storeA [5] [] none (plantedProg 2 2 2 [[1, 2], [-1, -2], [1, -2], [-1, 2]] [])).1 9).map
     (·.cnf.clauses) = some [[1, 2], [-1, -2]] := by decide +kernel
 
 example : (0 : Nat) ∉ footprint (famCall ⟨[]⟩ storeA [0] [(0, .simple)] none (tseitinProg false)).1 9 := by
